@@ -355,8 +355,42 @@ def json_doc(ver, k, pos):
     return doc
 
 
+def nested_label_mismatch(ctx, hszinc):
+    """A nested grid carries its own version label: 3.0-only data inside an inner grid labelled pre-3.0 must be refused
+    by both readers even though the outer grid is 3.0."""
+    from hszinc import MODE_ZINC, MODE_JSON
+    for inner in ('2.0', '1.0'):
+        for k in K3:
+            for pos in ('cell', 'grid-meta', 'col-meta'):
+                if pos == 'cell':
+                    z = 'ver:"3.0"\nouter\n<<ver:"%s"\na,b\n%s,1\n>>\n' % (inner, ZINC_TEXT[k])
+                elif pos == 'grid-meta':
+                    z = 'ver:"3.0"\nouter\n<<ver:"%s" mv:%s\na\n1\n>>\n' % (inner, ZINC_TEXT[k])
+                else:
+                    z = 'ver:"3.0"\nouter\n<<ver:"%s"\na cv:%s,b\n1,2\n>>\n' % (inner, ZINC_TEXT[k])
+                j = {'meta': {'ver': '3.0'}, 'cols': [{'name': 'outer'}], 'rows': [{'outer': json_doc(inner, k, pos)}]}
+                for name, fn in (('zinc-reader', lambda: hszinc.parse(z, mode=MODE_ZINC)),
+                                 ('zinc-scalar-reader', lambda: hszinc.parse_scalar(z.split('\n', 2)[2].rstrip('\n'), mode=MODE_ZINC, version='3.0')),
+                                 ('json-reader', lambda: hszinc.parse(j, mode=MODE_JSON)),
+                                 ('json-scalar-reader', lambda: hszinc.parse_scalar(json_doc(inner, k, pos), mode=MODE_JSON, version='3.0'))):
+                    ctx.case('nested-label', inner, k, pos, name)
+                    ctx.count('nested label-mismatch documents')
+                    try:
+                        res = fn()
+                    except Exception:
+                        continue
+                    g = res[0]['outer'] if name in ('zinc-reader', 'json-reader') else res
+                    lab = str(getattr(g, 'version', '?'))
+                    if isinstance(g, hszinc.Grid) and grid_contains3(hszinc, g) and ref_cmp(lab, '3.0') < 0:
+                        ctx.violation({'part': 'matrix', 'format': name, 'kind': k, 'symptom': 'accepted-under-pre3',
+                                       'features': ['nested-grid-own-label', 'pos=' + pos, ver_class(inner)]},
+                                      '%s returned a nested grid labelled %s that holds a %s' % (name, lab, k),
+                                      {'version': inner, 'kind': k, 'pos': 'nested-' + pos})
+
+
 def matrix(ctx, hszinc):
     from hszinc import MODE_ZINC, MODE_JSON
+    nested_label_mismatch(ctx, hszinc)
     cells = {}
     for ver in VERSIONS[1:]:
         refuse = ref_cmp(ver, '3.0') < 0
